@@ -76,11 +76,25 @@ class Tree:
         else:
             self.lines.append(('#define char short\n', False))
 
+    def commented_directives(self, active):
+        """a block comment spanning lines that look like directives: they are comment text wherever
+        the comment stands (selected or unselected region)"""
+        rng = self.rng
+        self.n += 1
+        self.lines.append(('char m%d; /* commented out\n' % self.n, active, 'char m%d; \n' % self.n))
+        for _ in range(rng.randrange(1, 4)):
+            self.lines.append((rng.choice(['#else\n', '#endif\n', '#if 0\n', '#elif 1\n', '#define char short\n', '#error no\n',
+                                           '#ifdef A\n']), False))
+        self.n += 1
+        self.lines.append(('*/ char m%d;\n' % self.n, active, ' char m%d;\n' % self.n))
+
     def body(self, depth, active):
         rng = self.rng
         for _ in range(rng.randrange(0, 4)):
             k = rng.random()
-            if k < 0.45:
+            if k < 0.08:
+                self.commented_directives(active)
+            elif k < 0.45:
                 self.marker(active)
             elif k < 0.6:
                 self.inert(active)
@@ -132,8 +146,8 @@ def gen_tree_case(rng, cid, maxdepth):
                 pre.append('#define %s %s\n' % (n, v))
     t = Tree(rng, macros, maxdepth)
     t.body(0, True)
-    src = ''.join(pre) + ''.join(l for l, _ in t.lines)
-    expected = ''.join(l for l, a in t.lines if a)
+    src = ''.join(pre) + ''.join(x[0] for x in t.lines)
+    expected = ''.join((x[2] if len(x) > 2 else x[0]) for x in t.lines if x[1])
     return (cid, src, defs, [], 'main.c'), expected
 
 
